@@ -203,23 +203,24 @@ func Equal[T comparable](iters ...Iterator[T]) bool {
 // Last consumes iter and returns the last n items. If iter yields fewer than n items, Last returns
 // all of them.
 func Last[T any](iter Iterator[T], n int) []T {
-	buf := make([]T, n)
+	// buf is a ring of the last n items. It grows as items arrive rather than being allocated at n
+	// up front, so that an n much larger than the input costs no more than the input.
+	buf := []T{}
 	i := 0
 	for {
 		item, ok := iter.Next()
 		if !ok {
 			break
 		}
-		if n > 0 {
+		if len(buf) < n {
+			buf = append(buf, item)
+		} else if n > 0 {
 			buf[i%n] = item
 		}
 		i++
 	}
-	if n == 0 {
+	if i <= n || n <= 0 {
 		return buf
-	}
-	if i < n {
-		return buf[:i]
 	}
 	out := make([]T, n)
 	idx := i % n
